@@ -35,6 +35,8 @@ def gen_case(rng, mid_backward):
         live = [n for n in b.order if n in b.tensors]
         a = b.tensors[rng.choice(live)]
         r = rng.random()
+        if mid_backward and not did_backward and made >= 2 and rng.random() < 0.35:
+            r = 0.95          # take the mid-history backward early enough for failing statements to follow it
         ok = None
         if r < 0.25:
             ok = b.fail(rng.choice(inplace.FAIL_KINDS), a)
@@ -46,7 +48,11 @@ def gen_case(rng, mid_backward):
         elif r < 0.9:
             ok = inplace.mutate(b, rng, a)
         elif mid_backward and not did_backward:
-            nc = [n for n in live if not b.tensors[n].const and b.fam[n] == n]
+            # (half of the time through a VIEW: after the backward it is a disconnected view with a lingering base, a state failing statements must preserve)
+            nc = [n for n in live if not b.tensors[n].const and (b.fam[n] == n or rng.random() < 0.5)]
+            views_first = [n for n in nc if b.fam[n] != n]
+            if views_first and rng.random() < 0.6:
+                nc = views_first
             if nc:
                 t = b.tensors[rng.choice(nc)]
                 s = b.apply("sum", [b.apply("multiply", [t, ("array", t.shape, b.rng_vals(t.shape, 1, 2))])], {"axis": None, "keepdims": False})
@@ -93,7 +99,8 @@ def run(rep, work, tier, seed, props, replay=None):
         c = b.case("all")
         c["families"] = True
         cases.append(c)
-        clean_cases.append({"stmts": clean_of(b.stmts), "observe": "end", "families": True})
+        # (same observation points as the full run: reading .grad of a disconnected view caches it, so the reads are part of the program)
+        clean_cases.append({"stmts": clean_of(b.stmts), "observe": "all", "families": True})
     results = gh.run_impl_cases(cases)
     clean_results = gh.run_impl_cases(clean_cases)
     viol = []
